@@ -260,18 +260,20 @@ class ExcludeRegionState(object):  # pylint: disable=too-many-instance-attribute
         boolean
             True if any point in the list is contained in an excluded region, False otherwise.
         """
-        if (self._exclusionEnabled):
-            xAxis = self.position.X_AXIS
-            yAxis = self.position.Y_AXIS
+        # The tracked X/Y position must always end up at the last point, even when exclusion is
+        # disabled or an earlier point is excluded, so every point is applied before returning.
+        xAxis = self.position.X_AXIS
+        yAxis = self.position.Y_AXIS
+        exclude = False
 
-            for index in range(0, len(xyPairs), 2):
-                x = xAxis.setLogicalPosition(xyPairs[index])
-                y = yAxis.setLogicalPosition(xyPairs[index + 1])
+        for index in range(0, len(xyPairs), 2):
+            x = xAxis.setLogicalPosition(xyPairs[index])
+            y = yAxis.setLogicalPosition(xyPairs[index + 1])
 
-                if (self.isPointExcluded(x, y)):
-                    return True
+            if (not exclude and self.isPointExcluded(x, y)):
+                exclude = True
 
-        return False
+        return exclude
 
     def isExclusionEnabled(self):
         """Whether exclusion is currently enabled (True) or disabled (False)."""
